@@ -247,6 +247,16 @@ func ruleR17(c *Ctx) *RuleResult {
 				continue
 			}
 			key := p.FuncKey(fn)
+			if name == "Select" {
+				if facts, bad, ok := selectOverNextTo(c, ct, itType, fn, keyName, keyed); ok {
+					if len(bad) > 0 {
+						r.bad(key, clause, p.FuncPos(fn), strings.Join(dedup(bad), "\n"))
+					} else {
+						r.ok(key, clause, p.FuncPos(fn), facts)
+					}
+					continue
+				}
+			}
 			if name != "Select" && name != "Map" {
 				if facts, ok := delegatedEnumerable(c, ct, itType, fn, name, keyName); ok {
 					r.ok(key, clause, p.FuncPos(fn), facts)
@@ -1591,4 +1601,83 @@ func delegatedEnumerable(c *Ctx, ct, itType *types.Named, fn *ssa.Function, name
 		return "", false
 	}
 	return fmt.Sprintf("forwards to %s of the inner container in field %s, whose iterator the own iterator wraps transparently (Next, Value, %s are the inner iterator's); the inner function is itself an R17 obligation", name, F, keyName), true
+}
+
+// selectOverNextTo: Select written as `for it := recv.Iterator(); it.NextTo(f); { result.Put(it.Key(), it.Value()) }` — NextTo
+// (judged by R14to as the canonical search loop over Next) stops exactly at the next pair f accepts, so the loop inserts the
+// accepted pairs in iteration order and nothing else. Shape, on the plain normal form: an entry that only builds the result,
+// one path "NextTo failed → return the result", one path "NextTo succeeded → one insertion of the iterator's current
+// (Key()|–, Value()) into the result → again".
+func selectOverNextTo(c *Ctx, ct, itType *types.Named, fn *ssa.Function, keyName string, keyed bool) (string, []string, bool) {
+	p := c.p
+	gc := c.GC(fn)
+	if gc.Undecided != "" || len(gc.GCs) != 3 {
+		return "", nil, false
+	}
+	ownNextTo := p.RelPkg(itType.Obj().Pkg().Path()) + ".(*" + itType.Obj().Name() + ").NextTo"
+	var entry, done, step *GC
+	for _, g := range gc.GCs {
+		switch {
+		case g.From == 0:
+			entry = g
+		case g.Exit.Op == "return":
+			done = g
+		default:
+			step = g
+		}
+	}
+	if entry == nil || done == nil || step == nil || entry.Exit.Op != "goto" || step.Exit.Op != "goto" || step.Exit.Leaf != entry.Exit.Leaf || len(entry.Guards) != 0 {
+		return "", nil, false
+	}
+	for _, ef := range entry.Effects {
+		if ef.Op == "do" || ef.Op == "dyn" {
+			return "", nil, false
+		}
+	}
+	isNextTo := func(t *Term) bool {
+		return t.Op == "do" && t.Leaf == ownNextTo && len(t.Args) == 2 && t.Args[1].String() == "p:1"
+	}
+	if len(done.Effects) != 1 || !isNextTo(done.Effects[0]) || len(done.Guards) != 1 || len(step.Effects) != 2 || !isNextTo(step.Effects[0]) || len(step.Guards) != 1 {
+		return "", nil, false
+	}
+	nt := step.Effects[0]
+	if noEpoch(done.Effects[0]) != noEpoch(nt) || noEpoch(done.Guards[0]) != "(! (res "+noEpoch(nt)+"))" || noEpoch(step.Guards[0]) != "(res "+noEpoch(nt)+")" {
+		return "", nil, false
+	}
+	IT := nt.Args[0]
+	if _, ok := ownIteratorTerm(gc, IT); !ok {
+		return "", nil, false
+	}
+	ins := step.Effects[1]
+	nm, args, ok := effDo(ins)
+	if !ok || (nm != "Put" && nm != "Add") || len(args) < 2 {
+		return "", nil, false
+	}
+	var bad []string
+	kT, vT := iterMethodTerm(c, fn, itType, keyName, IT), iterMethodTerm(c, fn, itType, "Value", IT)
+	var got, want []string
+	if nm == "Add" {
+		el := varargElem(step.Effects, 1, args[1])
+		if el == nil {
+			return "", nil, false
+		}
+		got = []string{noEpoch(el)}
+	} else {
+		for _, a := range args[1:] {
+			got = append(got, noEpoch(a))
+		}
+	}
+	if keyed {
+		want = []string{kT, vT}
+	} else {
+		want = []string{vT}
+	}
+	if strings.Join(got, " | ") != strings.Join(want, " | ") {
+		bad = append(bad, fmt.Sprintf("Select inserts %s, expected %s", trunc(strings.Join(got, " | "), 200), trunc(strings.Join(want, " | "), 200)))
+	}
+	if len(done.Exit.Args) != 1 || noEpoch(done.Exit.Args[0]) != noEpoch(args[0]) {
+		bad = append(bad, "insertion into something other than the returned container")
+	}
+	bad = append(bad, checkDerivedConstructor(c, ct, gc, args[0])...)
+	return "a loop on the own iterator's NextTo(f) (the canonical search loop, R14to) inserting the current pair after every success", bad, true
 }
